@@ -31,7 +31,8 @@ ORDER_ONLY = {"list", "sorted", "tuple"}
 
 
 class SymEval:
-    def __init__(self, fm: FuncModel):
+    def __init__(self, fm: FuncModel, pol_tables: bool = False):
+        self.pol_tables = pol_tables
         self.fm = fm
         self.f = fm.f
         self.params = set(fm.f.params())
@@ -66,7 +67,7 @@ class SymEval:
                 return V(e.args[0])
             if nm == "variable_to_place" and e.args:
                 pol = e.args[1] if len(e.args) > 1 else next((k.value for k in e.keywords if k.arg == "positive"), None)
-                pt = repr(pol.value) if isinstance(pol, ast.Constant) else "*"
+                pt = repr(pol.value) if isinstance(pol, ast.Constant) else (self._poltable(pol, at, bound) if self.pol_tables else "*")
                 return f"P({V(e.args[0])},{pt})"
             if nm == "place_to_variable" and e.args:
                 return f"p2v({V(e.args[0])})"
@@ -111,6 +112,8 @@ class SymEval:
             base, k = V(e.value), V(e.slice)
             return _norm(f"idx({base},{k})")
         if isinstance(e, ast.Attribute):
+            if e.attr == "nodes":
+                return V(e.value)   # `x in G.nodes` is `x in G`
             return f"{V(e.value)}.{e.attr}"
         if isinstance(e, ast.Tuple):
             return "(" + ",".join(V(x) for x in e.elts) + ")"
@@ -173,9 +176,8 @@ class SymEval:
                             i = next(i for i, x in enumerate(tg.elts) if isinstance(x, ast.Name) and x.id == name)
                             toks.add(self.val(a.value.elts[i], d, None, depth + 1))
                         else:
-                            env = {}
-                            self._bind(tg, "TUPLE:" + self.val(a.value, d, None, depth + 1), env)
-                            toks.add(env.get(name, name).replace("elem(TUPLE:", "part(", 1))
+                            i = next(i for i, x in enumerate(tg.elts) if isinstance(x, ast.Name) and x.id == name)
+                            toks.add(_norm(f"idx({self.val(a.value, d, None, depth + 1)},{i})"))  # unpacking = indexing
                         continue
                 toks.add(name)
             if "EMPTY" in toks:
@@ -184,36 +186,97 @@ class SymEval:
                     return name                       # `if p is None: p = {}` : still the parameter
                 apps = self._appends(name)
                 if apps and not toks:
-                    elems = sorted({t for _, t in apps})
+                    elems = sorted({x[1] for x in apps})
                     tok = "acc[" + ";".join(elems) + "]"
                     self.accs[tok] = apps
                     return tok
                 toks.add("[]")
             if not toks:
                 return name
-            return " | ".join(sorted(toks))
+            return sorted(toks)[0] if len(toks) == 1 else "<" + " | ".join(sorted(toks)) + ">"
         finally:
             self._busy.discard(key)
 
     def _appends(self, name: str):
+        """Contributions to the collection `name`: (cfg node, element token, extra condition or None)."""
         out = []
         from ..repo import own_walk
         for c in own_walk(self.f.node):
-            if isinstance(c, ast.Call) and isinstance(c.func, ast.Attribute) and c.func.attr == "append" \
-                    and isinstance(c.func.value, ast.Name) and c.func.value.id == name and c.args:
-                cn = self.fm.cfgn(c)
-                out.append((cn, self.val(c.args[0], cn)))
+            if not (isinstance(c, ast.Call) and isinstance(c.func, ast.Attribute) and isinstance(c.func.value, ast.Name)
+                    and c.func.value.id == name and c.args):
+                continue
+            cn = self.fm.cfgn(c)
+            m = c.func.attr
+            if m in ("append", "add"):
+                out.append((cn, self.val(c.args[0], cn), None))
+            elif m in ("update", "extend"):
+                a = c.args[0]
+                if isinstance(a, (ast.GeneratorExp, ast.ListComp, ast.SetComp)) and len(a.generators) == 1:
+                    g = a.generators[0]
+                    b2: dict = {}
+                    self._bind(g.target, self.val(g.iter, cn), b2)
+                    tr = logic.Translator(lambda e, b2=b2, cn=cn: self.val(e, cn, b2))
+                    extra = logic.And(*[tr.f(x) for x in g.ifs]) if g.ifs else None
+                    out.append((cn, self.val(a.elt, cn, b2), extra))
+                else:
+                    out.append((cn, _norm(f"elem({self.val(a, cn)})"), None))
         return out
+
+    def contributions(self, tok: str):
+        """[(element token, condition)] of an accumulator token."""
+        out = []
+        for cn, el, extra in self.accs.get(tok, []):
+            c = self.cond(cn)
+            out.append((el, logic.And(c, extra) if extra is not None else c, cn))
+        return out
+
+    def _poltable(self, pol: ast.AST, at, bound: dict | None) -> str:
+        """Polarity as a function of the one 0/1 value it is computed from: `{0:F,1:T}@<value token>`."""
+        from .c09 import Unknown, ev
+        import copy as _c
+        e, at2 = pol, at
+
+        class D(ast.NodeTransformer):
+            def visit_Name(me, n):  # noqa: N805
+                if bound and n.id in bound:
+                    return n
+                x, _ = self.fm.deref_at(n, at2)
+                return me.visit(_c.deepcopy(x)) if x is not n else n
+        e = D().visit(_c.deepcopy(e))
+        leaves = {}
+        funcs = {id(c.func) for c in ast.walk(e) if isinstance(c, ast.Call)}
+        inner = {id(x) for n in ast.walk(e) if isinstance(n, ast.Subscript) for x in ast.walk(n) if x is not n}
+        for n in ast.walk(e):
+            if isinstance(n, (ast.Name, ast.Subscript)) and id(n) not in funcs and id(n) not in inner:
+                leaves[text(n)] = self.val(n, at2, bound)
+        toks = set(leaves.values())
+        if len(toks) != 1:
+            return "*"
+        out = []
+        for v in (0, 1):
+            try:
+                out.append("T" if ev(e, {k: v for k in leaves}) else "F")
+            except Unknown:
+                return "*"
+        return "{0:%s,1:%s}@%s" % (out[0], out[1], next(iter(toks)))
 
     # ------------------------------------------------------------------ conditions
     def translator(self, at) -> logic.Translator:
         return logic.Translator(lambda e: self.val(e, at))
 
-    def cond(self, n):
-        """Condition under which CFG node n is reached (tests of dominating branches, over tokens)."""
+    def cond(self, n, local: bool = False):
+        """Condition under which CFG node n is reached (tests of dominating branches, over tokens). With `local`, only
+        the tests inside the outermost loop around n count (guards of the whole function are left out)."""
         fs = []
+        ids = None
+        if local:
+            loops = self.fm.cfg.enclosing_loops(n)
+            if loops:
+                ids = self.fm.cfg.loop_nodes[loops[-1]]
         for b in self.fm.cfg.dominators(n):
             if b.kind != "branch" or b.test is None:
+                continue
+            if ids is not None and b.id not in ids:
                 continue
             tnode = self.fm.cfg.nodes[next(iter(self.fm.cfg.g.predecessors(b.id)))]
             f = self.translator(tnode).f(b.test)
@@ -221,15 +284,55 @@ class SymEval:
         return logic.And(*fs)
 
 
+def _balanced(tok: str, i: int) -> int:
+    """index just after the parenthesis that closes the one opened at tok[i] (tok[i] == '(')."""
+    d = 0
+    for j in range(i, len(tok)):
+        if tok[j] == "(":
+            d += 1
+        elif tok[j] == ")":
+            d -= 1
+            if d == 0:
+                return j + 1
+    return -1
+
+
+def _rewrite(tok: str, head: str, fn) -> str:
+    """Replace every `head(X).k` (X balanced, k a digit) by fn(X, k)."""
+    out, i = "", 0
+    while True:
+        j = tok.find(head + "(", i)
+        if j < 0:
+            return out + tok[i:]
+        e = _balanced(tok, j + len(head))
+        if e < 0 or e + 1 >= len(tok) + 1 or tok[e:e + 1] != "." or not tok[e + 1:e + 2].isdigit():
+            out += tok[i:j + len(head) + 1]
+            i = j + len(head) + 1
+            continue
+        inner = tok[j + len(head) + 1:e - 1]
+        r = fn(inner, tok[e + 1])
+        if r is None:
+            out += tok[i:j + len(head) + 1]
+            i = j + len(head) + 1
+            continue
+        out += tok[i:j] + r
+        i = e + 2
+
+
 def _norm(tok: str) -> str:
-    """elem(items(D)).0 -> elem(D);  elem(items(D)).1 -> idx(D,elem(D));  elem(nodes+kind(G)).0 -> elem(nodes(G)) ..."""
-    import re
-    for _ in range(4):
+    """elem(items(D)).0 -> elem(D);  elem(items(D)).1 -> idx(D,elem(D));  elem(enumerate(X)).1 -> elem(X), .0 -> index(X);
+    elem(nodes+kind(G)).0 -> elem(nodes(G)), .1 -> kind(elem(nodes(G)))"""
+    def fn(inner: str, k: str):
+        for head, a, b in (("items", lambda x: f"elem({x})", lambda x: f"idx({x},elem({x}))"),
+                           ("enumerate", lambda x: f"index({x})", lambda x: f"elem({x})"),
+                           ("nodes+kind", lambda x: f"elem(nodes({x}))", lambda x: f"kind(elem(nodes({x})))")):
+            if inner.startswith(head + "(") and _balanced(inner, len(head)) == len(inner):
+                x = inner[len(head) + 1:-1]
+                return a(x) if k == "0" else b(x) if k == "1" else None
+        return None
+    for _ in range(6):
         t0 = tok
-        tok = re.sub(r"elem\(items\(([^()]*(?:\([^()]*\))*[^()]*)\)\)\.0", r"elem(\1)", tok)
-        tok = re.sub(r"elem\(items\(([^()]*(?:\([^()]*\))*[^()]*)\)\)\.1", r"idx(\1,elem(\1))", tok)
-        tok = re.sub(r"elem\(nodes\+kind\(([^()]*)\)\)\.0", r"elem(nodes(\1))", tok)
-        tok = re.sub(r"elem\(nodes\+kind\(([^()]*)\)\)\.1", r"kind(elem(nodes(\1)))", tok)
+        tok = _rewrite(tok, "elem", fn)
         if tok == t0:
             break
     return tok
